@@ -188,7 +188,7 @@ impl FastWorld {
     }
 }
 
-fn main() {
+pub fn main() {
     let mut ck = Check::new("C03", "exploration");
     ck.rule("Sets of 0..60 distinct NUL- and '/'-free names over an alphabet around '/' (0x01 ' ' '+' ',' '-' '.' '0' 'A' '_' 'a' 'b' '~' 0x7f 0xff LF TAB), about half derived from another name of the set (one-byte extension by '.', '0', '-', 0x01, 0xff..., truncation, concatenation), each with one of the five modes (trees over-represented). Non-trivial: the set has a prefix-related pair whose shorter name is a tree. Distinct by the hash of the (name, mode, id) list (lookup: plus nothing else; queries are derived deterministically).");
     ck.assume(&format!(
